@@ -1,6 +1,7 @@
 (** C19 — Repeating iteration cycles through the whole split forever.
     Property theorems only; each is closed by [exact] of a lemma proved in Proofs/. *)
 Require Import Sedpack.Model.Base Sedpack.Generated.GenIter Sedpack.Model.Iter Sedpack.Proofs.IterProofs Sedpack.Proofs.ChainProofs Sedpack.Proofs.CycleChain.
+Require Import Sedpack.Proofs.BatchProofs Sedpack.Proofs.BatchSim.
 Require Import Sedpack.Generated.GenRegistry Sedpack.Model.Registry Sedpack.Proofs.RegistryProofs.
 Require Import Sedpack.Model.PipeBase Sedpack.Generated.GenPipeline Sedpack.Proofs.PipelineProofs Sedpack.Proofs.RustPipeline.
 From Coq Require Import Permutation.
@@ -36,6 +37,17 @@ Theorem c19_sync_reader_periodic :
   chain_nth path ex read l dp k s0 = Some (nth (k mod length (concat (map read l))) (concat (map read l)) de).
 Proof. exact chain_cycle_periodic. Qed.
 Print Assumptions c19_sync_reader_periodic.
+
+(** The unshuffled repeating CONCURRENT reader (batches of T paths through executor.map over [itertools.cycle] of the paths; also the
+    path tf.data takes for fb/npz datasets): for every k, every batch size T >= 1, the k-th example handed over is example (k mod N)
+    of a single pass — reading ahead in batches does not reorder, drop or repeat (proved by simulation with the chain of shards). *)
+Theorem c19_concurrent_reader_periodic :
+  forall (path ex : Type) (read : path -> list ex) (l : list path) (dp : path) (de : ex) (T : nat),
+  l <> nil -> (forall p, 1 <= length (read p)) -> 1 <= T ->
+  forall k, nth_out (batch_source path ex (cycle_source l dp) read T) k (batch_init path ex (cycle_source l dp) 0)
+            = Some (nth (k mod length (concat (map read l))) (concat (map read l)) de).
+Proof. exact concurrent_cycle_periodic. Qed.
+Print Assumptions c19_concurrent_reader_periodic.
 
 (** The Rust interface: any number of generators (train / validation / ...) share the registry of live Rust iterators and are
     advanced in ANY interleaving, some dropped early.  If the keys drawn for the registry never repeat, generator i receives
